@@ -141,13 +141,15 @@ def _mk_api(nops, tiers, timeout):
                     return False
                 twin = mk_console(system, terminal, record=False)
                 _apply(twin, op, arg)
-                if cap.get() != twin.file.getvalue():
+                # hyperlink ids are random per Style object: normalise them before comparing
+                norm = lambda t: re.sub(r"\x1b\]8;id=[^;]*;", "\x1b]8;id=N;", t)  # noqa: E731
+                if norm(cap.get()) != norm(twin.file.getvalue()):
                     return False
                 # captured output is not part of what was written to the file: drop it from the record for the comparison
                 c2 = mk_console(system, terminal)
                 for (op2, arg2) in ops[:i]:
                     _apply(c2, op2, arg2)
-                if c2.file.getvalue() != before:
+                if norm(c2.file.getvalue()) != norm(before):
                     return False
             else:
                 _apply(c, op, arg)
